@@ -2,7 +2,6 @@ package certs
 
 import (
 	"bufio"
-	"bytes"
 	"encoding/binary"
 	"encoding/hex"
 	"encoding/json"
@@ -189,13 +188,13 @@ func IsWorker(id string) bool {
 }
 
 type singleReq struct {
-	Unit string `json:"unit"`
-	Item int    `json:"item"`
-	Desc string `json:"desc"`
-	DER  string `json:"der_hex"`
-	Base string `json:"base_hex,omitempty"`
-	Seed string `json:"seed,omitempty"`
-	Light bool  `json:"light,omitempty"`
+	Unit  string `json:"unit"`
+	Item  int    `json:"item"`
+	Desc  string `json:"desc"`
+	DER   string `json:"der_hex"`
+	Base  string `json:"base_hex,omitempty"`
+	Seed  string `json:"seed,omitempty"`
+	Light bool   `json:"light,omitempty"`
 }
 
 // WorkerMain is the main function of worker processes (and of isolated single
@@ -954,14 +953,3 @@ func Order(units []Unit, seed int64) []int {
 	}
 	return order
 }
-
-// HexOrEmpty decodes a hex string, returning nil on error.
-func HexOrEmpty(s string) []byte {
-	b, err := hex.DecodeString(s)
-	if err != nil {
-		return nil
-	}
-	return b
-}
-
-var _ = bytes.Equal
